@@ -23,7 +23,8 @@ impl<$TP> Handle<$G, Message<Never, Never>> for UpTb {
     open spec fn gate(&self, k: int, h: $HEAP, g: $G, c: Cap, m: Message<Never, Never>) -> bool {
         if k == $GATE_UP_KIND { m is Pull || m is Terminate || m is Error }
         else if k == $GATE_UP_GREETED { self.i < g.ups.len() && up_greeted(g.ups[self.i as int].phase) }
-        else if k == $GATE_UP_PULL_LIVE { self.i < g.ups.len() && (m is Pull && !dn_over(g.dn.phase) ==> !up_over(g.ups[self.i as int].phase)) }
+        else if k == $GATE_UP_PULL_LIVE { self.i < g.ups.len() && (m is Pull && !dn_over(g.dn.phase) ==> g.ups[self.i as int].phase != Up::EndedByUs) }
+        else if k == $GATE_UP_PULL_SELF { self.i < g.ups.len() && (m is Pull && !dn_over(g.dn.phase) ==> g.ups[self.i as int].phase != Up::EndedBySelf && g.ups[self.i as int].phase != Up::ErroredBySelf) }
         else if k == $GATE_UP_PULL_OVER { self.i < g.ups.len() && (m is Pull && dn_over(g.dn.phase) ==> !up_over(g.ups[self.i as int].phase)) }
         else if k == $GATE_UP_TERM_ONCE { self.i < g.ups.len() && (!(m is Pull) ==> g.ups[self.i as int].phase != Up::EndedByUs) }
         else if k == $GATE_UP_TERM_SELF { self.i < g.ups.len() && (!(m is Pull) ==> g.ups[self.i as int].phase != Up::EndedBySelf && g.ups[self.i as int].phase != Up::ErroredBySelf) }
